@@ -2,6 +2,7 @@ import Orx.IW.Outs
 import Orx.IW.Completed
 import Orx.IW.Progress
 import Orx.KSLedger
+import Orx.GenThms.Own
 /-! # C18 Panic containment: a panicking pull does not hang or corrupt others -/
 namespace Orx.Props.C18
 open Orx Orx.IW
@@ -84,5 +85,37 @@ positions it adds to moved-out/destroyed are exactly the chunk it pulled -/
 example : let s : KSrc := { kind := .vec, vals := [7, 8, 9, 10] }
     let c := KS.run s [0, 0] (KS.init s fun t => if t = 0 then [⟨0, .foreach 3 (some 1)⟩] else [])
     (c.th 0).pc = .dead ∧ c.mv = [0, 1] ∧ c.dr = [2] := by decide
+
+
+/-! ## A panicking destructor in the owner-side code as in the source (`Generated/Own.lean`) -/
+section SourceOwn
+open Orx.RSO Orx.GenO Orx.GenThms.Own
+
+/-- **an element destructor that panics inside the crate's own destruction code does not stop the destruction**: whichever
+of the remaining elements' destructors panics (`dpanic = some k`, any `k`), `Drop for Taken` (an unconsumed chunk),
+`skip_to_end` and `Drop for ConIterOfVec` still destroy **every** element they are responsible for, exactly once, before the
+call unwinds; and the unwinding `Drop` has released the vector's buffer (the state reached is the same as without a panic) -/
+theorem source_destructor_panic_destroys_all (len cap f k : Nat) (o : OSt) (ρ' : Type) (hv : VecCell o len cap)
+    (hu : Untouched o (min o.ctr len) len) (hk : o.dpanic = some k) (hlt : k < len - min o.ctr len) :
+    (Vec.drop f (vecS len) : PF ρ' _) o = .unwind (afterVecDrop o len cap) ∧
+    (afterVecDrop o len cap).dr = o.dr ++ RSO.rangeList (min o.ctr len) len ∧
+    (afterVecDrop o len cap).heap = o.heap ++ (if 0 < cap then [.free 0] else []) ∧
+    (Vec.early_exit f (vecS len) : PF ρ' _) o = .unwind (afterSkip o len) ∧
+    (afterSkip o len).dr = o.dr ++ RSO.rangeList (min o.ctr len) len := by
+  have hh : dpHit o.dpanic (len - min o.ctr len) = true := by simp [dpHit, hk, hlt]
+  refine ⟨?_, rfl, rfl, ?_, rfl⟩
+  · rw [vec_drop len len cap f o ρ' hv hu]; simp [hh]
+  · rw [vec_early_exit len cap f o ρ' hv hu]; simp [hh]
+
+/-- the same for a chunk that is dropped with elements left -/
+theorem source_chunk_drop_panic_destroys_all (cap b len idx f k : Nat) (o : OSt) (ρ' : Type) (hi : idx ≤ len) (hc : b + len ≤ cap)
+    (hu : Untouched o (b + idx) (b + len)) (hk : o.dpanic = some k) (hlt : k < len - idx) :
+    (Taken.drop f (taken cap b len idx) : PF ρ' _) o = .unwind (afterTakenDrop o b len idx) ∧
+    (afterTakenDrop o b len idx).dr = o.dr ++ RSO.rangeList (b + idx) (b + len) := by
+  have hh : dpHit o.dpanic (len - idx) = true := by simp [dpHit, hk, hlt]
+  refine ⟨?_, rfl⟩
+  rw [taken_drop cap b len idx f o ρ' hi hc hu]; simp [hh]
+
+end SourceOwn
 
 end Orx.Props.C18
